@@ -419,6 +419,12 @@ class Interp:
             if re.search(pat, path):
                 return model(s, frame, path)
         it, gen = s.resolve_fn(path)
+        if it is None and '::' in path and not path.startswith('<'):
+            # item nested in a function body:  Type::method::NAME
+            pre, last = path.rsplit('::', 1)
+            try: pit, _ = s.resolve_fn(pre)
+            except Unsupported: pit = None
+            if pit is not None and (pit.name + '::' + last) in s.items: it = s.items[pit.name + '::' + last]
         if it is None:
             it2 = s.items.get(path)
             if it2 is None:
@@ -742,6 +748,15 @@ class Interp:
         s.stack.append(fr)
         try:
             return s.run_frame(fr, 'bb0')
+        except (Panic, PathEnd):
+            raise
+        except Exception as e:
+            st = getattr(e, 'mir_stack', None)
+            if st is None:
+                try: e.mir_stack = st = []
+                except Exception: st = []
+            st.append(item.name + ' @ ' + str(getattr(fr, 'cur', '?')))
+            raise
         finally:
             s.depth -= 1; s.stack.pop()
 
@@ -751,7 +766,7 @@ class Interp:
             if bb == stop_at: return ('stopped', bb)
             nxt = None
             for st in blocks[bb]:
-                s.steps += 1
+                s.steps += 1; fr.cur = st
                 if s.steps > s.max_steps: raise Unsupported('step budget exhausted')
                 if st[-1] == ';': st = st[:-1]
                 c0 = st[0]
